@@ -277,6 +277,15 @@ func runVdrProperty(c *Ctx, prop string) {
 		src, _ := GenProgram(c.Rng, GenOpts{Files: true, Retain: true})
 		specs = append(specs, mk(fmt.Sprint("orch", i), src, mode, c.Seed*7919+int64(i)))
 	}
+	if only := os.Getenv("VDR_ONLY"); only != "" { // debugging aid: run the specs whose name contains the string
+		var keep []*VdrSpec
+		for _, sp := range specs {
+			if strings.Contains(sp.Name, only) {
+				keep = append(keep, sp)
+			}
+		}
+		specs = keep
+	}
 	results := RunVdrSpecs(specs, 14)
 	phase(fmt.Sprintf("tierA(%d runs)", len(specs)))
 	{
